@@ -88,8 +88,8 @@ def sites(fn: ast.AST) -> List[Tuple[int, str]]:
             out.append((i, "str"))
         elif isinstance(n, ast.Attribute) and n.attr in SWAP_ATTR:
             out.append((i, "attr"))
-        elif isinstance(n, (ast.AugAssign,)) or (isinstance(n, ast.Expr) and isinstance(n.value, ast.Call)):
-            out.append((i, "del"))
+        elif isinstance(n, (ast.AugAssign,)) or (isinstance(n, ast.Expr) and isinstance(n.value, ast.Call) and id(n.value) not in skip):
+            out.append((i, "del"))  # (removing a log line is not a behaviour change: message-only calls are skipped)
     return out
 
 
